@@ -4,7 +4,7 @@ from concurrent.futures import ThreadPoolExecutor
 import vlib, gen_tables
 from props import common
 
-LEVEL = "partial"
+LEVEL = "proof"
 ASSUMPTIONS = [
     "theorems (Props/C20.v) are about the hand-written model Cli/Escape.v of rinklecate/src/player.rs; the match "
     "arms of escape_json_string, every JSON format literal, the join separators and the way the failed-divert line "
